@@ -22,6 +22,8 @@ fixed=[
 ("C11","4995b55","sample() with n_bootstraps=1 ignored NaN / wrong-length y and weights"),
 ("C11","1f61752","PoissonGAM.fit(list y): AttributeError"),
 ("C11","293fa99","gridsearch on an unfitted model with list X: AttributeError; X used before validation"),
+("C19","6a443b0","PoissonGAM.gridsearch with exposure/weights != 1: GAM.gridsearch passed weights positionally, PoissonGAM.fit took them as exposure (rates divided twice, candidates unweighted)"),
+("C10","6a443b0","gridsearch candidate scores of a PoissonGAM with weights differed from an independent fit with those hyper-parameters (same positional-argument defect)"),
 ("C11","c2e8abf","fit_quantile on a fitted model returned without validating y when already within tol"),
 ]
 kf={"comment":"known findings (status=known: reported as KNOWN-FINDING, exit 0) and repaired defects (status=fixed: suppress nothing). Never written at run time.",
